@@ -404,7 +404,10 @@ def run(ctx):
     daemon_phase(ctx, rng, 40 if ctx.quick else 400)
     # galaxy-ipam's side of the hand-over: the annotation Bind writes (real FloatingIPPlugin vs Model/Plugin.v, regression and
     # incarnation scenarios incl. a second Bind of the same incarnation after a failed pods/binding call)
-    plugincheck.run(ctx, "C13", PLUGIN_THEOREMS, [], mon_c13_bind, module="C13p", nrandom=(40, 400), per_config=(1, 2), all_steps=True)
+    # (+ reloads that change a pool's prefix length / gateway / vlan: what Bind writes carries the attributes in force)
+    plugincheck.run(ctx, "C13", PLUGIN_THEOREMS, [], lambda h, o, nwf, keys: mon_c13_bind(h, o, nwf, keys) + plugincheck.mon_c20_plugin(h, o, nwf, keys),
+                    module="C13p", nrandom=(40, 400), per_config=(1, 2), all_steps=True,
+                    extra_scenarios=plugincheck.attr_reload_scenarios(ctx.rng, ctx))
     corr, idx_corr, mons, mon_info = [], [], [], []
     for i, (c, o) in enumerate(zip(cases, obs)):
         ctx.count(c)
